@@ -14,6 +14,8 @@ pub struct Cfg {
     pub loop_body: Vec<BTreeSet<usize>>,
     /// for each header: targets outside the loop reached from inside
     pub loop_exits: Vec<Vec<usize>>,
+    /// for each header: the exit target of the loop's own continuation test (for / while), if any
+    pub primary_exit: Vec<Option<usize>>,
 }
 
 pub fn successors<'tcx>(term: &mir::Terminator<'tcx>) -> Vec<usize> {
@@ -142,7 +144,34 @@ pub fn build<'tcx>(body: &mir::Body<'tcx>) -> Cfg {
         }
         loop_exits[h] = ex.into_iter().collect();
     }
-    Cfg { n, succ, pred, ipdom, is_header, loop_body, loop_exits }
+    let mut primary_exit = vec![None; n];
+    for h in 0..n {
+        if !is_header[h] {
+            continue;
+        }
+        // follow single-successor blocks from the header to the first branch
+        let mut b = h;
+        let mut steps = 0;
+        while succ[b].len() == 1 && steps < 8 && loop_body[h].contains(&succ[b][0]) {
+            b = succ[b][0];
+            steps += 1;
+            if b == h {
+                break;
+            }
+        }
+        if succ[b].len() >= 2 {
+            let outs: Vec<usize> = succ[b]
+                .iter()
+                .cloned()
+                .filter(|t| !loop_body[h].contains(t))
+                .filter(|t| !matches!(body.basic_blocks[bb(*t)].terminator.as_ref().map(|x| &x.kind), Some(TerminatorKind::Unreachable)))
+                .collect();
+            if outs.len() == 1 {
+                primary_exit[h] = Some(outs[0]);
+            }
+        }
+    }
+    Cfg { n, succ, pred, ipdom, is_header, loop_body, loop_exits, primary_exit }
 }
 
 fn rpo_order(n: usize, succ: &Vec<Vec<usize>>, entry: usize) -> Vec<usize> {
